@@ -1036,8 +1036,10 @@ fn run_bind(n: u64, rng: &mut Rng, out: &mut Out) {
     for _ in 0..nb {
         let x = rng.below(nvars as u64) as usize;
         let mut ty = if clean || rng.chance(7, 8) { var_ty[x] } else { *rng.pick(&BINDABLE) };
-        if matches!(ty, Ty::Real | Ty::LReal) && ty != var_ty[x] {
-            // float bindings only on variables of that float type (see gen_var_value)
+        if (matches!(ty, Ty::Real | Ty::LReal) || matches!(var_ty[x], Ty::Real | Ty::LReal)) && ty != var_ty[x] {
+            // float bindings only on variables of that float type (see gen_var_value), and a float
+            // variable only gets bindings of its own type (an integer in-binding would latch a
+            // non-float numeric value into it)
             ty = var_ty[x];
         }
         let mut ad = gen_flat(rng, span);
